@@ -1,6 +1,6 @@
 """C12 — every way of reading a response yields the same bytes.
 
-case = {"payload": bytes, "coding": name, "framing": len|chunked|eof, "chunks": [sizes], "ext": bool, "segs": [sizes],
+case = {"payload": bytes, "coding": name, "framing": len|chunked|eof, "chunks": [sizes], "ext": False|True|2|3|4 (chunk extensions: none, one, two, spaced with a quoted ';', empty), "segs": [sizes],
         "decode": bool, "calls": [[api, arg], ...], "finish": [api, arg]}
 coding = identity | gzip | gzip2 (two members) | deflate | rawdeflate | zstd | zstd2 (two frames) | "gzip, deflate" ... (stacked)
 calls  = read None|n, read1 None|n, readinto k          finish = none | read | stream amt | read_chunked amt | iter | data (preload)
@@ -62,6 +62,14 @@ def header_coding(coding):
     return ", ".join(m.get(x.strip(), x.strip()) for x in coding.split(","))
 
 
+EXTS = {False: b"", None: b"", True: b";ext=1", 2: b";a=1;b=2", 3: b' ; a=1 ; b="x;y"', 4: b";;"}
+
+
+def chunk_ext(e):
+    """the chunk extensions after a chunk size (RFC 9112 7.1.1: any number of `;name[=value]`, with optional whitespace)"""
+    return EXTS[e]
+
+
 def wire_of(case, raw=None):
     """(raw body before framing, head, framed body); raw may be given (C13: a compressed stream cut before it is framed)"""
     if raw is None:
@@ -84,7 +92,7 @@ def wire_of(case, raw=None):
             k += 1
             piece = raw[i:i + n]
             i += n
-            body += b"%x" % len(piece) + (b";ext=1" if case.get("ext") else b"") + b"\r\n" + piece + b"\r\n"
+            body += b"%x" % len(piece) + chunk_ext(case.get("ext")) + b"\r\n" + piece + b"\r\n"
         body += b"0\r\n\r\n"
     else:
         hdrs.append(("Connection", "close"))
@@ -343,7 +351,7 @@ def one_case(rng):
         fin = ["read_chunked", rng.choice(NS + [None])]
     decode = rng.random() < 0.75 or fin[0] == "iter"      # iteration always decodes
     return {"payload": rand_payload(rng), "coding": rng.choice(CODINGS), "framing": framing, "chunks": [rng.choice([1, 2, 5, 16, 1000]) for _ in range(rng.randint(1, 3))],
-            "ext": rng.random() < 0.2, "segs": [rng.choice([1, 2, 3, 10, 50, 10000]) for _ in range(rng.randint(1, 3))], "decode": decode,
+            "ext": rng.choice([False, False, False, True, 2, 3, 4]), "segs": [rng.choice([1, 2, 3, 10, 50, 10000]) for _ in range(rng.randint(1, 3))], "decode": decode,
             "calls": calls, "finish": fin}
 
 
@@ -360,7 +368,7 @@ def cases(rng, tier):
                 for fin in (["read"], ["stream", 2], ["stream", None], ["iter"], ["data"]):
                     if fin[0] == "data" and calls:
                         continue
-                    out.append({"payload": pay, "coding": coding, "framing": framing, "chunks": [3, 11], "ext": coding == "gzip", "segs": [7, 1, 64], "decode": True,
+                    out.append({"payload": pay, "coding": coding, "framing": framing, "chunks": [3, 11], "ext": (2 if coding == "gzip" else 3 if coding == "identity" else False), "segs": [7, 1, 64], "decode": True,
                                 "calls": [list(c) for c in calls], "finish": list(fin)})
     for _ in range(3000 if tier == "quick" else 200000):
         out.append(one_case(rng))
